@@ -1327,15 +1327,19 @@ RULES = {
            'alphabet), every call judged against the reference model (accepted <=> legal), every refusal checked to be a '
            'RuleViolation that leaves the observable snapshot untouched, every acceptance checked to be logged once and to show '
            'on the card, state progress checked; distinct = distinct (call, outcome, state) sequences by hash; non-trivial = '
-           'contains at least one refused call and at least one accepted trial',
+           'contains at least one refused call and at least one accepted trial; every 256th/512th evaluation instead cuts a seeded history at a '
+           'seeded point and tries every sequence of two (thorough, 1 in 64: three) calls over the whole alphabet from there; in 40 % of the runs '
+           'calls on a second competition object are interleaved; in 12 % the heights are floats',
     'C03': 'one evaluation = one seeded complete competition (2-4 athletes, shared scripts to provoke ties, well-formed jump-offs '
            'with bar raised/repeated/lowered), bests checked after every call and places checked against countback computed '
            'from the cards alone whenever the state is finished/won/drawn; distinct = distinct terminal result cards by hash; '
-           'non-trivial = reached a terminal state with >= 2 athletes separated by the 2nd or 3rd countback level or a jump-off',
+           'non-trivial = reached a terminal state with >= 2 athletes separated by the 2nd or 3rd countback level or a jump-off; every 4000th/8000th '
+           'evaluation instead plays every combination of the 13 legal attempt strings at the height after a seeded prefix and every first jump-off round behind it',
     'C08': 'one evaluation = one seeded history with crash/recover points: rebuild from the action log (then kept in lock step '
            'for the rest of the run), export/import of the card, and re-execution of the accepted history under other jumping '
            'orders; distinct = distinct (history, fault points) by hash; non-trivial = >= 2 athletes, >= 1 accepted trial and '
-           '>= 1 recovery or re-scheduling actually executed',
+           '>= 1 recovery or re-scheduling actually executed; every 160th/256th evaluation instead tries every single next call at a seeded state, each '
+           'followed by all three recoveries; 2 % of the runs recover after every call',
 }
 
 
